@@ -480,6 +480,7 @@ class SR:
     """c (Fraction) if constant, else t (z3 real term) over denominator multiset d."""
 
     __slots__ = ("c", "t", "d")
+    __array_ufunc__ = None  # numpy arrays/scalars defer binary operations to the proxy
 
     def __init__(self, t=None, d=None, c=None):
         self.c = c
@@ -770,6 +771,41 @@ class SR:
         return "SR(%s%s)" % (str(self.t)[:60].replace("\n", " "), " /..." if self.d else "")
 
 
+def _arrayize(cls):
+    """binary operators with an ndarray operand act elementwise (the proxy opts out of NumPy's ufunc
+    dispatch, so this is where `scalar op array` and `array op scalar` are defined)."""
+    import operator
+
+    def wrap(name):
+        f = getattr(cls, name, None)
+        if f is None:
+            return
+
+        def g(self, o):
+            if isinstance(o, np.ndarray):
+                if o.ndim == 0:
+                    return f(self, o.item())
+                out = np.empty(o.shape, dtype=object)
+                fo = out.reshape(-1)
+                fi = o.reshape(-1)
+                for i in range(fi.shape[0]):
+                    r = f(self, fi[i])
+                    if r is NotImplemented:
+                        return NotImplemented
+                    fo[i] = r
+                from .npshim import SA
+
+                return out.view(SA)
+            return f(self, o)
+
+        g.__name__ = name
+        setattr(cls, name, g)
+
+    for nm in ("__add__", "__radd__", "__sub__", "__rsub__", "__mul__", "__rmul__", "__truediv__", "__rtruediv__", "__lt__", "__le__", "__gt__", "__ge__", "__eq__", "__ne__", "__floordiv__", "__mod__"):
+        wrap(nm)
+    return cls
+
+
 _MINUS1 = SR(c=Fraction(-1))
 ZERO = SR(c=Fraction(0))
 ONE = SR(c=Fraction(1))
@@ -778,6 +814,7 @@ ONE = SR(c=Fraction(1))
 # ----------------------------------------------------------------------------- SC
 class SC:
     __slots__ = ("re", "im")
+    __array_ufunc__ = None
 
     def __init__(self, re, im=0):
         self.re = SR.lift(re)
@@ -915,6 +952,7 @@ class SI:
     """symbolic integer: v is a z3 Int term."""
 
     __slots__ = ("v",)
+    __array_ufunc__ = None
 
     def __init__(self, v):
         self.v = v
@@ -1029,291 +1067,17 @@ class SI:
         return ex.choose(self.v)
 
     def __int__(self):
-        if self.c is not None and self.c.denominator == 1:
-            return int(self.c)
-        raise Inconclusive("int() of a symbolic real")
-
-    __index__ = __int__
-
-    def __repr__(self):
-        if self.c is not None:
-            return "SR(%s)" % self.c
-        return "SR(%s%s)" % (str(self.t)[:60].replace("\n", " "), " /..." if self.d else "")
-
-
-_MINUS1 = SR(c=Fraction(-1))
-ZERO = SR(c=Fraction(0))
-ONE = SR(c=Fraction(1))
-
-
-# ----------------------------------------------------------------------------- SC
-class SC:
-    __slots__ = ("re", "im")
-
-    def __init__(self, re, im=0):
-        self.re = SR.lift(re)
-        self.im = SR.lift(im)
-
-    @staticmethod
-    def lift(o):
-        if isinstance(o, SC):
-            return o
-        if isinstance(o, (complex, np.complexfloating)):
-            o = complex(o)
-            return SC(o.real, o.imag)
-        return SC(SR.lift(o), ZERO)
-
-    def _co(self, o):
-        if isinstance(o, np.ndarray):
-            return None
-        try:
-            return SC.lift(o)
-        except TypeError:
-            return None
-
-    def __add__(self, o):
-        o = self._co(o)
-        if o is None:
-            return NotImplemented
-        return SC(self.re + o.re, self.im + o.im)
-
-    __radd__ = __add__
-
-    def __sub__(self, o):
-        o = self._co(o)
-        if o is None:
-            return NotImplemented
-        return SC(self.re - o.re, self.im - o.im)
-
-    def __rsub__(self, o):
-        o = self._co(o)
-        if o is None:
-            return NotImplemented
-        return SC(o.re - self.re, o.im - self.im)
-
-    def __mul__(self, o):
-        o = self._co(o)
-        if o is None:
-            return NotImplemented
-        return SC(self.re * o.re - self.im * o.im, self.re * o.im + self.im * o.re)
-
-    __rmul__ = __mul__
-
-    def __neg__(self):
-        return SC(-self.re, -self.im)
-
-    def __pos__(self):
-        return self
-
-    def inv(self):
-        d = self.re * self.re + self.im * self.im
-        return SC(self.re / d, -(self.im / d))
-
-    def __truediv__(self, o):
-        o = self._co(o)
-        if o is None:
-            return NotImplemented
-        if o.im.c is not None and o.im.c == 0:
-            return SC(self.re / o.re, self.im / o.re)
-        return self * o.inv()
-
-    def __rtruediv__(self, o):
-        o = self._co(o)
-        if o is None:
-            return NotImplemented
-        return o * self.inv()
-
-    def __pow__(self, n):
-        n = int(n)
-        if n == 0:
-            return SC(ONE, ZERO)
-        if n < 0:
-            return (self ** (-n)).inv()
-        r = self
-        for _ in range(n - 1):
-            r = r * self
-        return r
-
-    def conjugate(self):
-        return SC(self.re, -self.im)
-
-    conj = conjugate
-
-    def exp(self):
-        e = self.re.exp()
-        return SC(e * self.im.cos(), e * self.im.sin())
-
-    @property
-    def real(self):
-        return self.re
-
-    @property
-    def imag(self):
-        return self.im
-
-    def __abs__(self):
-        return (self.re * self.re + self.im * self.im).sqrt()
-
-    def __eq__(self, o):
-        o = self._co(o)
-        if o is None:
-            return NotImplemented
-        a, b = self.re == o.re, self.im == o.im
-        if isinstance(a, bool) and isinstance(b, bool):
-            return a and b
-        return SB(z3.And(sb_term(a), sb_term(b)))
-
-    def __ne__(self, o):
-        r = self.__eq__(o)
-        if r is NotImplemented:
-            return r
-        if isinstance(r, bool):
-            return not r
-        return ~r
-
-    def __hash__(self):
-        return id(self)
-
-    def __complex__(self):
-        return complex(float(self.re), float(self.im))
-
-    def __repr__(self):
-        return "SC(%r, %r)" % (self.re, self.im)
-
-
-# ----------------------------------------------------------------------------- SI
-class SI:
-    """symbolic integer: v is a z3 Int term."""
-
-    __slots__ = ("v",)
-
-    def __init__(self, v):
-        self.v = v
-
-    @staticmethod
-    def var(name):
-        return SI(z3.Int(name))
-
-    @staticmethod
-    def term(o):
-        if isinstance(o, SI):
-            return o.v
-        if isinstance(o, (int, np.integer, bool, np.bool_)):
-            return z3.IntVal(int(o))
-        raise TypeError(type(o))
-
-    def _bin(self, o, f):
-        if isinstance(o, (SR, SC, float, np.floating, Fraction, complex)):
-            return NotImplemented
-        try:
-            return SI(f(self.v, SI.term(o)))
-        except TypeError:
-            return NotImplemented
-
-    def __add__(self, o):
-        if isinstance(o, (SR, float, np.floating, Fraction)):
-            return SR.lift(self) + o
-        return self._bin(o, lambda a, b: a + b)
-
-    __radd__ = __add__
-
-    def __sub__(self, o):
-        if isinstance(o, (SR, float, np.floating, Fraction)):
-            return SR.lift(self) - o
-        return self._bin(o, lambda a, b: a - b)
-
-    def __rsub__(self, o):
-        return self._bin(o, lambda a, b: b - a)
-
-    def __mul__(self, o):
-        if isinstance(o, (SR, float, np.floating, Fraction)):
-            return SR.lift(self) * o
-        if isinstance(o, SI) and not z3.is_int_value(z3.simplify(o.v)) and not z3.is_int_value(z3.simplify(self.v)) and Explorer.current is not None:
-            # non-linear integer product: concretise one factor (fork over its values) to stay in LIA
-            return SI(z3.IntVal(self.concretize()) * o.v)
-        return self._bin(o, lambda a, b: a * b)
-
-    __rmul__ = __mul__
-
-    def __floordiv__(self, o):
-        return self._bin(o, lambda a, b: a / b)  # z3 Int division is floor for positive divisor
-
-    def __mod__(self, o):
-        return self._bin(o, lambda a, b: a % b)
-
-    def __neg__(self):
-        return SI(-self.v)
-
-    def __truediv__(self, o):
-        return SR.lift(self) / o
-
-    def __rtruediv__(self, o):
-        return SR.lift(o) / SR.lift(self)
-
-    def __pow__(self, n):
-        n = int(n)
-        r = self
-        for _ in range(n - 1):
-            r = r * self
-        return r
-
-    def _cmp(self, o, f):
-        if isinstance(o, (SR, float, np.floating, Fraction)):
-            return getattr(SR.lift(self), f)(o)
-        try:
-            b = SI.term(o)
-        except TypeError:
-            return NotImplemented
-        a = self.v
-        t = {"__lt__": a < b, "__le__": a <= b, "__gt__": a > b, "__ge__": a >= b, "__eq__": a == b, "__ne__": a != b}[f]
-        return SB(t)
-
-    def __lt__(self, o):
-        return self._cmp(o, "__lt__")
-
-    def __le__(self, o):
-        return self._cmp(o, "__le__")
-
-    def __gt__(self, o):
-        return self._cmp(o, "__gt__")
-
-    def __ge__(self, o):
-        return self._cmp(o, "__ge__")
-
-    def __eq__(self, o):
-        return self._cmp(o, "__eq__")
-
-    def __ne__(self, o):
-        return self._cmp(o, "__ne__")
-
-    def __hash__(self):
-        return id(self)
-
-    def concretize(self):
-        """fork over the feasible values (used for list/dict indexing)."""
-        ex = Explorer.current
-        if ex is None:
-            raise Inconclusive("int() of symbolic int outside an Explorer")
-        v = z3.simplify(self.v)
-        if z3.is_int_value(v):
-            return v.as_long()
-        # pick a model value, fork on equality
-        for _ in range(64):
-            s = ex.solver
-            if s.check() != z3.sat:
-                raise Inconclusive("cannot concretize")
-            m = s.model().eval(self.v, model_completion=True).as_long()
-            if _decide(self.v == m):
-                return m
-        raise Inconclusive("too many values for symbolic int")
-
-    def __int__(self):
         return self.concretize()
 
     __index__ = __int__
 
     def __repr__(self):
         return "SI(%s)" % str(self.v)[:60]
+
+
+_arrayize(SR)
+_arrayize(SC)
+_arrayize(SI)
 
 
 # ----------------------------------------------------------------------------- helpers
